@@ -65,7 +65,7 @@ KFTable == {
 
 (* the enabled deviations (literal set: tools/sync_known.py removes the ids of findings whose  *)
 (* status became 'fixed'; their rows stay in KFTable as documentation but cover nothing)       *)
-KnownIds == {"C15-KF1", "C15-KF2", "C15-KF3", "C15-KF4", "C15-KF5", "C15-KF6", "C15-KF7", "C15-KF8", "C15-KF9", "C15-KF10"}
+KnownIds == {"C15-KF8", "C15-KF9"}
 ASSUME KnownIds \subseteq {r.id : r \in KFTable}
 
 (* does deviation id cover outcome class o of batch e of subject subj?  (a finding may   *)
